@@ -251,6 +251,13 @@ def run_http(case, loop):
         request = Request(case['url'])
         if case.get('login'):
             request.username, request.password = 'u', 'p'
+        if case.get('post'):
+            # as WebProcessorSession._add_post_data does for --post-data
+            data = b'a=b&c=d'
+            request.method = 'POST'
+            request.fields['Content-Type'] = 'application/x-www-form-urlencoded'
+            request.fields['Content-Length'] = str(len(data))
+            request.body = Body(io.BytesIO(data))
         session = web.session(request)
         with session:
             while not session.done():
